@@ -155,6 +155,10 @@ type FX struct {
 	bufSlices map[string]Term
 	searchPred []searchFact
 	estUsed []string
+	inInv bool
+	invAssumed map[string]bool
+	invBroken map[string]bool
+	invObjs [][2]string
 }
 
 type frame struct {
